@@ -472,7 +472,28 @@ func (ea *functionAnalysisState) transferFunction(instruction ssa.Instruction, g
 		g.CallUnknown(args, []*Node{}, fmt.Sprintf("go at %v", instr.Parent().Prog.Fset.Position(instr.Pos())))
 		return
 	case *ssa.Defer:
-
+		// The deferred call runs when the function returns (or panics), in a state that is not the one at the defer
+		// statement. Over-approximate its effect by a call to an unknown function: the arguments and the
+		// receiver/closure are leaked. The result of a deferred call is discarded.
+		args := make([]*Node, len(instr.Call.Args))
+		for i, arg := range instr.Call.Args {
+			if IsEscapeTracked(arg.Type()) {
+				args[i] = nodes.ValueNode(arg)
+			}
+		}
+		switch instr.Call.Value.(type) {
+		case *ssa.Function, *ssa.Builtin, *ssa.Global, *ssa.Const:
+			// no receiver or closure
+		default:
+			if IsEscapeTracked(instr.Call.Value.Type()) {
+				args = append(args, nodes.ValueNode(instr.Call.Value))
+			}
+		}
+		g.CallUnknown(args, []*Node{}, fmt.Sprintf("deferred call at %v", instr.Parent().Prog.Fset.Position(instr.Pos())))
+		return
+	case *ssa.RunDefers:
+		// The effect of the deferred calls is accounted for at the defer statements.
+		return
 	case *ssa.Index:
 		switch tp := instr.X.Type().Underlying().(type) {
 		case *types.Basic:
